@@ -1,6 +1,7 @@
 package main
 
 import (
+	"bufio"
 	"bytes"
 	"fmt"
 	"io"
@@ -17,6 +18,9 @@ import (
 // kind idxgen (theories/RunIndex.v): LoadIndex / GenerateIndex over a source kind.
 //   source kind: 0 *bytes.Reader | 1 Read+Seek only | 2 plain io.Reader | 3 *os.File
 //                | 4 io.ReaderAt through NewReader(..).DataReader()
+//                | 5 *bufio.Reader (16-byte buffer) over a plain reader | 6 *bytes.Buffer
+//   5 and 6 are non-seekable streams that ALSO implement io.ByteReader: ToByteReadSeeker still
+//   wraps them in the discarding wrapper (no Seek), so they must behave exactly like kind 2.
 
 type gOpts struct {
 	zeof    bool
@@ -74,6 +78,10 @@ func runIdxGenImpl(c *Ctx, kind uint64, o gOpts, file []byte, codec uint64, qs [
 		}
 		defer func() { f.Close(); os.Remove(p) }()
 		src = f
+	case 5:
+		src = bufio.NewReaderSize(plainReader{bytes.NewReader(file)}, 16)
+	case 6:
+		src = bytes.NewBuffer(append([]byte(nil), file...))
 	case 4:
 		rd, err := carv2.NewReader(readerAtOnly{bytes.NewReader(file)}, o.v2()...)
 		if err != nil {
